@@ -79,6 +79,15 @@ def gen(tier, rng):
                         a = rng.choice([1, 1, 2, 3, 255, 65535]) if r < 0.3 else rng.randint(0, 65535)
                         cs = [rng.randint(0, 65535) if rng.random() < 0.5 else rng.randint(0, max(a, 1)) for _ in range(nc - 1)]
                     data += cs + [a]
+                if g % 4 == 3:
+                    # alpha in runs of equal values (max / 0 / 1 / other) at every alignment: data-dependent kernel branches
+                    i = 0
+                    while i < w * h:
+                        L = rng.randint(1, 12)
+                        av = rng.choice([65535, 65535, 0, 1, rng.randint(0, 65535)])
+                        for k in range(i, min(w * h, i + L)):
+                            data[k * nc + nc - 1] = av
+                        i += L
                 for cpu, variant, api in variants():
                     cases.append(img_case(pt, what, cpu, variant, api, w, h, data, grp, "pm1" if what == "div" else "exact"))
     # C. floats
@@ -114,6 +123,15 @@ def gen(tier, rng):
                         else:
                             cs.append(rng.random())
                     data += [f32bits(x) for x in cs] + [f32bits(a)]
+                if g % 3 == 2:
+                    # alpha in runs of equal values (1.0 / 0.0 / other) at every alignment
+                    i = 0
+                    while i < w * h:
+                        L = rng.randint(1, 12)
+                        av = f32bits(rng.choice([1.0, 1.0, 0.0, rng.random()]))
+                        for k in range(i, min(w * h, i + L)):
+                            data[k * nc + nc - 1] = av
+                        i += L
                 for cpu, variant, api in variants():
                     cases.append(img_case(pt, what, cpu, variant, api, w, h, data, grp, "ulp2" if what == "div" else "exact"))
     # E. pixel types without alpha must be rejected and leave the destination alone
